@@ -38,6 +38,8 @@ StepFailing(ev) ==
          Failing(ev) \o (IF ev.intact THEN <<>> ELSE <<"msg_intact">>)
                      \o (IF ev.expose_intact THEN <<>> ELSE <<"msg_expose">>)
                      \o (IF ev.unshared THEN <<>> ELSE <<"msg_unshared">>)
+                     \* (history steps) the same two contents, freshly read, gave the same outcome
+                     \o (IF "fresh_eq" \in DOMAIN ev /\ ~ev.fresh_eq THEN <<"history_free">> ELSE <<>>)
     [] ev.k = "reload" ->
          (IF ev.status = "ok" /\ ev.post = ev.pre /\ ev.ser_eq /\ ev.acc_eq THEN <<>> ELSE <<"reload_identity">>)
          \o (IF ev.status = "ok" /\ ev.cls = "RunningOrder" /\ ev.completed_eq
